@@ -807,7 +807,7 @@ impl BuiltInFunction {
                     args[0].as_list(borrowed_heap)?.clone()
                 };
                 let borrowed_heap = heap.borrow();
-                list.sort_by(|a, b| {
+                stable_sort_by(&mut list, |a, b| {
                     a.compare(b, &borrowed_heap)
                         .unwrap_or(None)
                         .unwrap_or(std::cmp::Ordering::Equal)
@@ -1500,7 +1500,7 @@ impl BuiltInFunction {
                     args[0].as_list(borrowed_heap)?.clone()
                 };
 
-                list.sort_by(|a, b| {
+                stable_sort_by(&mut list, |a, b| {
                     // Only look up the function once, not twice
                     let func_def = get_function_def(func, &heap.borrow());
 
@@ -1868,6 +1868,48 @@ impl FunctionDef {
             }
         }
     }
+}
+
+/// Stable merge sort that tolerates comparators which are not total orders (lists mixing
+/// incomparable values compare as "equal"). `slice::sort_by` may panic on such comparators.
+fn stable_sort_by<T: Copy>(items: &mut Vec<T>, mut compare: impl FnMut(&T, &T) -> std::cmp::Ordering) {
+    let n = items.len();
+    let mut src = items.clone();
+    let mut dst = items.clone();
+    let mut width = 1;
+    while width < n {
+        let mut start = 0;
+        while start < n {
+            let mid = usize::min(start + width, n);
+            let end = usize::min(start + 2 * width, n);
+            let (mut i, mut j, mut k) = (start, mid, start);
+            while i < mid && j < end {
+                // Take from the left run unless the right element is strictly smaller (stability)
+                if compare(&src[j], &src[i]) == std::cmp::Ordering::Less {
+                    dst[k] = src[j];
+                    j += 1;
+                } else {
+                    dst[k] = src[i];
+                    i += 1;
+                }
+                k += 1;
+            }
+            while i < mid {
+                dst[k] = src[i];
+                i += 1;
+                k += 1;
+            }
+            while j < end {
+                dst[k] = src[j];
+                j += 1;
+                k += 1;
+            }
+            start += 2 * width;
+        }
+        std::mem::swap(&mut src, &mut dst);
+        width *= 2;
+    }
+    *items = src;
 }
 
 pub fn is_built_in_function(ident: &str) -> bool {
